@@ -62,6 +62,14 @@ fn gen_inject(r: &mut Rng, victim: u32, peer: u32, spoofing: bool) -> Op {
             let kind = *r.pick(&["gap", "gap", "heartbeat", "acknack", "nackfrag", "datafrag", "datafrag", "data", "heartbeatfrag", "sub", "sub", "plist", "plist", "info", "info"]);
             let (a, b, c, d) = match kind {
                 "sub" => (r.below(256) as i64, r.below(256) as i64, *r.pick(&[0i64, 1, 3, 4, 8, 12, 24, 100, 3000]), r.below(256) as i64),
+                "datafrag" if r.chance(0.4) => {
+                    // self-consistent fragment arithmetic with the next expected sequence number: passes the reassembly
+                    // gate, so whatever the announced sizes drive (allocation, loops) really happens
+                    let n = *r.pick(&[1i64, 2, 0x8000, 0xFFFF]);
+                    let fs = *r.pick(&[1i64, 64, 0x4000, 0x8000, 0xFFFF]);
+                    let size = (n * fs - *r.pick(&[0i64, 0, 1])).clamp(1, 0xFFFF_FFFF);
+                    (-2, 1, (n << 16) | fs, *r.pick(&[0x0000_0002i64, 0x0000_0102, 0x0000_03c2, 0x0000_04c2, 0x0000_02c2]) | (size << 32))
+                }
                 "datafrag" => (*r.pick(&big), *r.pick(&[0i64, 1, 2, 0xFFFF_FFFF, 1000]), (*r.pick(&[0i64, 1, 2, 0xFFFF]) << 16) | *r.pick(&[0i64, 1, 8, 1344, 0xFFFF]), *r.pick(&writers) | (*r.pick(&[0i64, 1, 100, 0xFFFF_FFFF, 70_000]) << 32)),
                 "plist" => (*r.pick(&[0x0050i64, 0x0005, 0x0007, 0x002c, 0x0029, 0x4014, 0x0031, 0x0058, 0x0075, 0x8000, 0x7fff]), *r.pick(&[0i64, 4, 8, 12, 16, 0xFFFC, 0xFFFF]), *r.pick(&[0i64, 1, 0xFFFF_FFFF, 0x7FFF_FFFF, 1000]), *r.pick(&writers)),
                 _ => (*r.pick(&big), *r.pick(&big), *r.pick(&big), *r.pick(&writers)),
